@@ -80,7 +80,7 @@ Proof. exact calls_ip_call_plain. Qed.
 Theorem c12_translated_generated_instantiate2_call : forall ok2 ty txt payload n inner msg sender f l a salt,
   calls (PG true ok2 ty txt payload) 3 "InstantiateProxy::call" [ip_val (code_id_val n (app_val inner)) f l a (some salt) msg; sender]
     (CVal (let d := did "extern::execute" [inner; sender; inst2_msg n msg f l a salt] payload in
-           if ok2 then VCon "Ok" [proxy_val (VCon "Into::into" [d]) (app_val inner)]
+           if ok2 then VCon "Ok" [proxy_val d (app_val inner)]
            else VCon "Err" [VCon "Into::into" [VCon "StdError::GenericErr" [VStr "parse error"]]])) /\
   calls (PG false ok2 ty txt payload) 3 "InstantiateProxy::call" [ip_val (code_id_val n (app_val inner)) f l a (some salt) msg; sender]
     (CVal (VCon "Err" [VCon "From::from" [VCon "downcast_error"
